@@ -17,7 +17,7 @@ BAD_NUMBER_TOKENS = ["abc", "0.5abc", "1e", "1e+", ".", "+", "-", "+.e5", "0x10"
 INT_TOKENS = ["5", "-5", "+5", "0", "010", "2147483647", "-2147483648", "12"]
 BAD_INT_TOKENS = ["5x", "5.5", "2147483648", "-2147483649", "99999999999", "0x10", "-", "+", "abc", "1e3", "5 6"]
 BOOL_TOKENS = ["on", "off", "yes", "no", "true", "false"]
-BAD_BOOL_TOKENS = ["On", "TRUE", "1", "0", "y", "on off", "onn"]
+BAD_BOOL_TOKENS = ["On", "TRUE", "1", "0", "y", "on off", "onn", "on junk", "off on", "yes {", "true 1", "no no", "on\ton", "false x y"]
 WORDS = ["x", "one", "file.dat", "Group_1", "a/b", "dA", "x1"]
 
 
@@ -464,6 +464,18 @@ def gen_nested_case(r):
             i = r.choice(idx_open)
             l = lines[i].rstrip()
             lines[i] = l[:-1].rstrip() + b" " + r.choice([b"junk", b"foo", b"1"]) + b" {"
+        else:
+            tag = "valid"
+    elif m < 0.905:
+        # text after the complete value of a leaf keyword, on the same line: a junk word, or a keyword of the same level with
+        # its value (the line itself again); boolean flags preferred half of the time
+        leaf = [i for i, l in enumerate(lines) if re.match(rb"\s*[A-Za-z_]", l) and b"{" not in l and b"}" not in l and b"#" not in l]
+        flags = [i for i in leaf if lines[i].split()[0].lower() in (b"outputenergy", b"forcenopbc")]
+        if leaf:
+            tag = "trailing-text"
+            i = r.choice(flags) if flags and r.random() < 0.5 else r.choice(leaf)
+            l = lines[i].rstrip()
+            lines[i] = l + b" " + (b"junk" if r.random() < 0.5 else l.strip())
         else:
             tag = "valid"
     elif m < 0.93:
